@@ -52,6 +52,10 @@ def encodings(rng):
         # distinct labels that a numeric coercion would identify (or, for "nan", separate from itself)
         "zero-padded codes": lambda c, t: pick(["1", "01", "001", "1.0", "1e0"], c),
         "64-bit ids": lambda c, t: pick([2 ** 53, 2 ** 53 + 1, 2 ** 53 + 2, 2 ** 62 + 1, 2 ** 62 + 3], c),
+        # distinct float64 labels closer together than single (or half) precision resolves: scores, timestamps, ids stored as floats
+        "floats within a float32 ulp": lambda c, t: pick(rng.choice([[1.0, 1.0 + 1e-9, 1.0 + 2e-9], [2.0 ** 24, 2.0 ** 24 + 1, 2.0 ** 24 + 2], [0.1, 0.1 + 1e-12, 0.1 - 1e-12],
+                                                                     [1e10, 1e10 + 1, 1e10 + 2], [-3.0, -3.0 - 4e-16 * 3, -3.0 + 1e-8]]), c),
+        "float64 arrays within a float32 ulp": lambda c, t: tuple(np.array([v], dtype=np.float64) for v in pick([5.0, 5.0 + 1e-10, 5.0 - 1e-10], c)),
         "words incl. nan / inf": lambda c, t: pick(["nan", "inf", "cat", "NaN"], c),
         "0 / -0 / False as different classes' stand-ins": lambda c, t: pick(["0", "-0", "0.0", "+0"], c),
         # labels whose representation differs in length / type from the first one seen
